@@ -9,7 +9,7 @@ Theorems in Thm/C01.lean are re-checked on every run.
 import binascii
 from vf import core, acbuild
 
-THM = ["YaraModel.Thm.C01", "YaraModel.Thm.AcCert", "YaraModel.Thm.AcBuild"]
+THM = ["YaraModel.Thm.C01", "YaraModel.Thm.AcCert", "YaraModel.Thm.AcBuild", "YaraModel.Thm.C01EndToEnd"]
 MANIFEST = dict(
     technique="Lean 4 proofs (atoms cover every variant for every window choice; verify = spec; sorted de-duplicated insertion; pipeline = spec for every complete candidate set) + spec-level correspondence of the real engine against the Lean specification",
     text="proof: Thm/C01.lean proves for ALL strings, ALL legal modifier sets / xor ranges, ALL atom-window choices (hence all quality heuristics) and ALL buffers that the "
@@ -19,7 +19,10 @@ MANIFEST = dict(
          "against the spec of the three documented alternatives (sampled). Thm/AcBuild.lean proves, for EVERY list of non-empty atoms and EVERY buffer, that the automaton "
          "the modelled construction builds (ahocorasick.c: trie insertion, BFS failure links with match-list inheritance, failure-link optimisation, first-fit table packing "
          "with growth) reports exactly the atom occurrences (build_sound; zero-length atoms are outside the theorem); that model is tied to the code by requiring the tables "
-         "it builds from the logged atoms to EQUAL the real transition/match tables and match pool, entry for entry, on every generated rule set (sampled).",
+         "it builds from the logged atoms to EQUAL the real transition/match tables and match pool, entry for entry, on every generated rule set (sampled). "
+         "Thm/C01EndToEnd.lean composes the two (text_strings_end_to_end): for every rule set of text strings sharing one automaton, every window choice and every buffer, "
+         "the model's whole chain atoms -> construction -> scan -> verification -> insertion reports exactly each string's documented occurrences, with no hypothesis "
+         "about the candidate stage left (the two known deviations F19 / F20 of the verification step remain as explicit hypotheses).",
     design_ref="DESIGN.md §5 C01",
     note=core.TB + "Hooks H3/H4 are trusted to report truthfully. Buffers are single blocks.")
 
